@@ -55,6 +55,9 @@ func (vc *VC) doCall(st *State, f *Frame, instr ssa.Value, c *ssa.CallCommon, ar
 		f.inDefers = true
 	}
 	vc.curFrame = f
+	if len(st.frames) == 1 && vc.contract != nil && len(vc.contract.CallReqs) > 0 {
+		vc.checkCallReqs(st, f, c, fnv, pos)
+	}
 	// builtins
 	if b, ok := c.Value.(*ssa.Builtin); ok && !c.IsInvoke() {
 		return done(vc.builtin(st, f, b, c, args, pos))
@@ -92,6 +95,10 @@ func (vc *VC) doCall(st *State, f *Frame, instr ssa.Value, c *ssa.CallCommon, ar
 	inRepo := callee.Pkg != nil && strings.HasPrefix(callee.Pkg.Pkg.Path(), vc.eng.modPath) || callee.Parent() != nil && callee.Blocks != nil
 	if inRepo && callee.Blocks != nil {
 		ct := vc.eng.contractOf(callee)
+		if ct != nil && ct.Opaque && callee != vc.fn {
+			vc.used["opaque (assumed pure and deterministic): "+name] = true
+			return done(vc.opaqueCall(st, callee, args))
+		}
 		if ct != nil && !ct.Inline && callee != vc.fn && len(cl.Bind) == 0 {
 			if ct.Trusted {
 				vc.used["trusted-contract:"+name] = true
@@ -180,8 +187,36 @@ func (vc *VC) havocArgs(st *State, c *ssa.CallCommon, args []Value) {
 	}
 }
 
+// funcFieldOf: "p.F(...)" where F is a function-valued field: returns "<pkg>.<Type>.<Field>".
+func funcFieldOf(v ssa.Value) string {
+	u, ok := v.(*ssa.UnOp)
+	if !ok || u.Op != token.MUL {
+		return ""
+	}
+	fa, ok := u.X.(*ssa.FieldAddr)
+	if !ok {
+		return ""
+	}
+	pt := fa.X.Type().Underlying().(*types.Pointer).Elem()
+	n, ok := types.Unalias(pt).(*types.Named)
+	if !ok || n.Obj().Pkg() == nil {
+		return ""
+	}
+	st, ok := n.Underlying().(*types.Struct)
+	if !ok {
+		return ""
+	}
+	return n.Obj().Pkg().Path() + "." + n.Obj().Name() + "." + st.Field(fa.Field).Name()
+}
+
 func (vc *VC) dynamicCall(st *State, c *ssa.CallCommon, args []Value, fnv Value, pos string) Value {
 	sig := c.Signature()
+	if key := funcFieldOf(c.Value); key != "" {
+		if ct, ok := vc.eng.db.ByField[key]; ok {
+			vc.used["assumed-contract (function-valued field): "+key] = true
+			return vc.applyContract(st, ct, sig, args, nil, pos, "extern")
+		}
+	}
 	// func() time.Time : a clock
 	if sig.Params().Len() == 0 && sig.Results().Len() == 1 && isNamed(sig.Results().At(0).Type(), "time", "Time") {
 		vc.note("function-valued clock fields read the monotone ghost clock")
@@ -457,19 +492,17 @@ func (vc *VC) applyContract(st *State, ct *Contract, sig *types.Signature, args 
 	pre := st.snapshot()
 	envPre := vc.bindLets(env.inState(pre), ct)
 	envPre.old = pre
-	short := ct.Target
 	for _, cl := range ct.Requires {
 		t, err := envPre.EvalBool(cl.E)
 		if err != nil {
 			vc.eng.specError(fmt.Sprintf("%s: requires: %v", ct.Target, err))
 			continue
 		}
-		vc.oblCount["pre@"+short]++
 		label := cl.Label
 		if label != "" {
 			label = "[" + label + "]"
 		}
-		vc.oblige(st, fmt.Sprintf("pre@%s#%d%s", short, vc.oblCount["pre@"+short]-1, label), t, vc.props, pos)
+		vc.oblige(st, fmt.Sprintf("pre%s@%s", label, vc.site()), t, vc.props, pos)
 		st.assume(t)
 	}
 	// frame
@@ -496,13 +529,16 @@ func (vc *VC) applyContract(st *State, ct *Contract, sig *types.Signature, args 
 		results = append(results, v)
 		post.vars[names[i]] = SV{v.(*Term), rt}
 	}
-	for _, cl := range ct.Ensures {
+	for _, cl := range append(append([]*Clause{}, ct.Ensures...), ct.Defines...) {
 		t, err := post.EvalBool(cl.E)
 		if err != nil {
 			vc.eng.specError(fmt.Sprintf("%s: ensures [%s]: %v", ct.Target, cl.Label, err))
 			continue
 		}
 		st.assume(t)
+	}
+	if len(ct.Defines) > 0 {
+		vc.note("ghost state is defined by the 'defines' clauses of %s (not checked against its body)", ct.Target)
 	}
 	switch len(results) {
 	case 0:
@@ -687,9 +723,22 @@ func (vc *VC) callMods(fn *ssa.Function, c *ssa.CallCommon, li *loopInfo, visiti
 	case *ssa.MakeClosure:
 		callee = v.Fn.(*ssa.Function)
 	default:
+		sig := c.Signature()
+		if key := funcFieldOf(c.Value); key != "" {
+			if ct, ok := vc.eng.db.ByField[key]; ok {
+				contractMods(ct, key)
+				return out
+			}
+		}
+		if sig.Params().Len() == 0 && sig.Results().Len() == 1 && isNamed(sig.Results().At(0).Type(), "time", "Time") {
+			return []modTarget{{kind: "clock"}}
+		}
 		return nil
 	}
 	name := callee.String()
+	if name == "time.Now" || name == "time.Since" {
+		return []modTarget{{kind: "clock"}}
+	}
 	if _, ok := handlers[name]; ok {
 		if m, ok := handlerMods[name]; ok {
 			for _, ai := range m {
@@ -723,6 +772,7 @@ func (vc *VC) callMods(fn *ssa.Function, c *ssa.CallCommon, li *loopInfo, visiti
 			m.ref = nil // callee-local allocs are not objects of this frame
 			out = append(out, m)
 		}
+		// boxes and big.Int buffers allocated by the callee are fresh objects as well
 		return out
 	}
 	// unknown external: pointees of pointer arguments
@@ -744,7 +794,9 @@ func (vc *VC) staticModTarget(ct *Contract, m Expr, c *ssa.CallCommon) []modTarg
 	switch x := m.(type) {
 	case *EIdent:
 		switch x.Name {
-		case "clock", "alloc":
+		case "clock":
+			return []modTarget{{kind: "clock"}}
+		case "alloc":
 			return nil
 		case "everything":
 			return []modTarget{{kind: "all", heap: ct.Target}}
@@ -854,8 +906,7 @@ func (vc *VC) envFor(st *State, f *Frame) *Env {
 func (vc *VC) finish(st *State, f *Frame, res []Value, pos token.Pos) {
 	ct := vc.contract
 	vc.nreturns++
-	vc.cover(st, fmt.Sprintf("cover@return#%d", vc.oblCount["ret"]), vc.posOf(pos))
-	vc.oblCount["ret"]++
+	vc.cover(st, "cover@"+vc.site(), vc.posOf(pos))
 	if ct == nil {
 		return
 	}
@@ -870,14 +921,27 @@ func (vc *VC) finish(st *State, f *Frame, res []Value, pos token.Pos) {
 		vc.valueLabels[strings.Join(strings.Fields(rt.S), " ")] = "result:" + names[i]
 	}
 	defer func() { vc.extraValues = nil }()
+	// all postconditions of one return path share the path condition: evaluate them first (evaluation
+	// may add facts), then emit them as one group so that they can be tried as a single conjunction
+	type pending struct {
+		cl *Clause
+		t  *Term
+	}
+	var goals []pending
 	for _, cl := range ct.Ensures {
 		t, err := env.EvalBool(cl.E)
 		if err != nil {
 			vc.eng.specError(fmt.Sprintf("%s: ensures [%s]: %v", ct.Target, cl.Label, err))
 			continue
 		}
-		vc.oblige(st, "post["+cl.Label+"]", t, vc.clauseProps(ct, cl), vc.posOf(pos))
+		goals = append(goals, pending{cl, t})
 	}
+	vc.groupKey = fmt.Sprintf("%s#path%d", vc.key, vc.npaths)
+	vc.groupPrefix = ""
+	for _, g := range goals {
+		vc.oblige(st, "post["+g.cl.Label+"]", g.t, vc.clauseProps(ct, g.cl), vc.posOf(pos))
+	}
+	vc.groupKey = ""
 }
 
 // ---------------------------------------------------------------------------
@@ -990,8 +1054,7 @@ func (vc *VC) guardCheck(st *State, f *Frame, addr ssa.Value, pos token.Pos) {
 			p := vc.asPtr(vc.value(st, f, fa.X), pt).withStep(PathStep{Field: i})
 			held := vc.load(st, p)
 			key := "lock@" + types.Unalias(pt).(*types.Named).Obj().Name() + "." + fname
-			vc.oblCount[key]++
-			vc.oblige(st, fmt.Sprintf("%s#%d", key, vc.oblCount[key]-1), held, []string{"C10"}, vc.posOf(pos))
+			vc.oblige(st, fmt.Sprintf("%s@%s", key, vc.site()), held, []string{"C10"}, vc.posOf(pos))
 			return
 		}
 	}
@@ -1009,3 +1072,64 @@ func (vc *VC) guardCheckMap(st *State, f *Frame, m ssa.Value, pos token.Pos) {
 
 // ---------------------------------------------------------------------------
 // summed-map measures (ghost sums over map values) -- see measure.go
+
+// opaqueCall: the result is an uninterpreted function of the argument values.
+func (vc *VC) opaqueCall(st *State, callee *ssa.Function, args []Value) Value {
+	var ts []*Term
+	var sorts []*Sort
+	for _, a := range args {
+		t := vc.term(st, a, "opaque")
+		ts = append(ts, t)
+		sorts = append(sorts, t.Sort)
+	}
+	res := callee.Signature.Results()
+	var out Tuple
+	for i := 0; i < res.Len(); i++ {
+		rs := vc.eng.st.SortOf(res.At(i).Type())
+		name := fmt.Sprintf("uf_%s_%d", smtName(callee.String()), i)
+		if len(name) > 70 {
+			name = fmt.Sprintf("uf_%s_%d_%d", smtName(callee.Name()), vc.eng.tagOf(callee.Signature), i)
+		}
+		vc.declareFun(name, sorts, rs)
+		out = append(out, App(rs, name, ts...))
+	}
+	switch len(out) {
+	case 0:
+		return nil
+	case 1:
+		return out[0]
+	}
+	return out
+}
+
+// checkCallReqs: caller-side requirements ("callreq") of the function under contract.
+func (vc *VC) checkCallReqs(st *State, f *Frame, c *ssa.CallCommon, fnv Value, pos string) {
+	name := ""
+	switch {
+	case c.IsInvoke():
+		name = ifaceMethodKey(c)
+	default:
+		if cl, ok := fnv.(*Closure); ok {
+			name = cl.Fn.String()
+		} else if k := funcFieldOf(c.Value); k != "" {
+			name = k
+		}
+	}
+	if name == "" {
+		return
+	}
+	for _, cr := range vc.contract.CallReqs {
+		if !strings.Contains(name, cr.Pattern) {
+			continue
+		}
+		env := vc.envFor(st, f)
+		env.old = vc.entry
+		env.frame = f
+		t, err := env.EvalBool(cr.Clause.E)
+		if err != nil {
+			vc.eng.specError(fmt.Sprintf("%s: callreq %s: %v", vc.contract.Target, cr.Pattern, err))
+			continue
+		}
+		vc.oblige(st, "callreq["+cr.Clause.Label+"]@"+vc.site(), t, vc.clauseProps(vc.contract, cr.Clause), pos)
+	}
+}
